@@ -61,6 +61,11 @@ def rule_R1_R2(ctx):
             ctx.cannot("R1", short, str(e))
             continue
         variants = P.variants(enum)
+        # numbers are printed the way the digit parsers read them: plain Display (decimal, no width / radix options)
+        oddfmt = sorted({"%s: {%s%s}" % (v, p[2].replace("new_", ""), (" " + str(p[3])) if len(p) > 3 and p[3] else "") for v, pcs in dtab.items() for p in pcs
+                         if p[0] == "hole" and (p[2] != "new_display" or (len(p) > 3 and p[3]))})
+        ctx.check(not oddfmt, "R1", short + ":decimal-holes", "every value hole of %s is printed with `{}`" % short,
+                  "Display of %s formats a value with %s while the grammar reads plain decimal digits: the printed text parses back to another value or not at all" % (short, oddfmt), ctx.loc(db))
         ptab = {}
         for idx, (pieces, vs) in enumerate(alts):
             vs = {v for (e, v) in vs if e == enum}
@@ -245,6 +250,31 @@ def rule_R1_header(ctx):
         if T.has_call(t, "is_some") and T.has_call(t, "opt"):
             okr = True
     ctx.check(okr, "R1", "Header:optional-flag", "optional = opt(char('?')).is_some()", "optional flag not derived from the `?` mark", ctx.loc(pb))
+
+
+def rule_R1_label(ctx):
+    """label = type:class:name[:flavor] - class and name end at the next `:`, the flavor is the rest of the line (it may contain `:`)"""
+    P = ctx.program
+    try:
+        pb = P.fn("db_parse::parse_label")
+        g = G.parser_grammar(P, pb)
+    except AnchorMissing as e:
+        ctx.cannot("R1", "Label:grammar", str(e))
+        return
+    seq = g[1] if g[0] == "seq" else []
+
+    def last_class(x):
+        if x[0] == "class":
+            return x[1]
+        if x[0] in ("opt", "map") and len(x) > 1:
+            return last_class(x[1])
+        if x[0] == "seq" and x[1]:
+            return last_class(x[1][-1])
+        return None
+    lits = [x[1] for x in seq if x[0] == "lit"]
+    okl = len(seq) >= 6 and lits == [":", ":"] and last_class(seq[-1]) == "rest" and last_class(seq[4]) == "until::"
+    ctx.check(okl, "R1", "Label:grammar", "type `:` class `:` name [`:` rest-of-line flavor]",
+              "the label grammar is %s: the flavor is no longer the whole rest of the line (a flavor containing `:` is cut and the remainder silently discarded by the loader)" % (seq[-1:],), ctx.loc(pb))
 
 
 def rule_R3(ctx):
@@ -468,5 +498,6 @@ def run(ctx):
     rule_R1_R2(ctx)
     rule_R1_composite(ctx)
     rule_R1_header(ctx)
+    rule_R1_label(ctx)
     rule_R3(ctx)
     rule_R4(ctx)
